@@ -5,6 +5,7 @@ from views_common import *
 class C05(ViewsCheck):
     prop = "C05"
     mode = "write"
+    exh_kind = "write"
     gen_cfg = "GenViews_write.cfg"
     types_thorough = ["f64", "f32", "i32", "i64"]
     rule = ("behaviours = `tlc -generate` walks of the tensor machine GenViews (Mode=write): 5 calls each on a 6-buffer arena of ranks 1-4, "
